@@ -322,4 +322,14 @@ def a7_based(ctx):
     C13.b5_regex_order(ctx)
 
 
-RULES = [('A1', a1_durations), ('A2', a2_dates), ('A3', a3_times), ('A4', a4_numbers), ('A5', a5_money), ('A6', a6_units), ('A7', a7_based)]
+def a8_shared(ctx):
+    """A8 two reader / printer clauses shared with other properties: the date reader takes day, month and year exactly as
+    written (C09 D2: a printed year must read back as itself), and the number printer cuts its rendering with lengths measured
+    on that same rendering (C07 N1: otherwise digits and separators of the printed number are displaced)"""
+    from .C09 import d2_small_date
+    from .C07 import n1_provenance
+    d2_small_date(ctx)
+    n1_provenance(ctx)
+
+
+RULES = [('D2', a8_shared), ('A1', a1_durations), ('A2', a2_dates), ('A3', a3_times), ('A4', a4_numbers), ('A5', a5_money), ('A6', a6_units), ('A7', a7_based)]
